@@ -81,7 +81,7 @@ func (p *c16Pool) hashValues(rng *rand.Rand, thorough bool) []string {
 		c16Unknown("a"), strings.Repeat("0", 64),
 		some[:63], some + "0", strings.Repeat("z", 64), strings.ToUpper(some), " " + some, some + " ",
 		"a", "0", "-1", "null", "é", "\x00", "a\x00b", "%", "%zz", "a+b", "a b", "..", ".", "\xff\xfe", "'; DROP TABLE headers;--",
-		"\"", "{}", strings.Repeat("ab", 2048),
+		"\"", "{}", strings.Repeat("ab", 2048), strings.Repeat("f", 60001), strings.Repeat("0", 200000),
 	}
 	if thorough {
 		vals = append(vals, strings.Repeat("f", 100000), strings.Repeat("é", 5000))
@@ -231,7 +231,8 @@ func c16Grammar(rng *rand.Rand, method, pattern string, p *c16Pool, thorough boo
 				keys = append(keys, r)
 			}
 		}
-		keys = append(keys, c16Unknown("root"), "", "zz", strings.ToUpper(p.roots[p.tip]), p.tip, " ", "\x00", strings.Repeat("a", 5000), "'", "%")
+		keys = append(keys, c16Unknown("root"), "", "zz", strings.ToUpper(p.roots[p.tip]), p.tip, " ", "\x00", strings.Repeat("a", 5000), "'", "%",
+			strings.Repeat("a", 50000), strings.Repeat("a", 50001), strings.Repeat("f", 65536), strings.Repeat("0", 200000), strings.Repeat("%", 60000))
 		add("query", pattern, "", nil)
 		for _, b := range c16Numbers {
 			add("query", pattern+"?"+c16Q("batchSize", b), "", nil)
@@ -357,7 +358,7 @@ func c16Grammar(rng *rand.Rand, method, pattern string, p *c16Pool, thorough boo
 			u := fmt.Sprintf("http://127.0.0.1:9/c16/%d/%d", len(p.hooks), rng.Intn(1000))
 			urls = append(urls, u)
 		}
-		urls = append(urls, "", " ", "not a url", "http://é.example/ü", strings.Repeat("h", 3000), "a\u0000b")
+		urls = append(urls, "", " ", "not a url", "http://é.example/ü", strings.Repeat("h", 3000), "http://127.0.0.1:9/"+strings.Repeat("h", 70000), "a\u0000b")
 		type auth struct {
 			Type   any `json:"type,omitempty"`
 			Token  any `json:"token,omitempty"`
@@ -394,7 +395,7 @@ func c16Grammar(rng *rand.Rand, method, pattern string, p *c16Pool, thorough boo
 		add("ctype-yaml", pattern, "application/x-yaml", []byte(fmt.Sprintf("url: http://127.0.0.1:9/c16/yaml/%d\n", rng.Intn(1<<30))))
 		add("ctype-yaml", pattern, "application/x-yaml", []byte("url: [\n"))
 	case "GET " + c16Prefix + "/webhook", "DELETE " + c16Prefix + "/webhook":
-		urls := append([]string{"", " ", "http://127.0.0.1:9/c16/never", "zz", "\x00", "%", strings.Repeat("u", 5000), "'"}, p.hooks...)
+		urls := append([]string{"", " ", "http://127.0.0.1:9/c16/never", "zz", "\x00", "%", strings.Repeat("u", 5000), strings.Repeat("u", 70000), "'"}, p.hooks...)
 		add("query", pattern, "", nil)
 		for _, u := range urls {
 			if method == "DELETE" && rng.Intn(3) > 0 && strings.HasPrefix(u, "http://127.0.0.1:9/c16/") && u != "http://127.0.0.1:9/c16/never" {
